@@ -27,6 +27,9 @@ type Case struct {
 	ResumeAt *int `json:"resume_at,omitempty"`
 	// environment deviation: the block source shuts down cleanly right after block CleanEndAt, in tier1's stream or in the
 	// tier2 job that processes it. The request must then end with an error, never succeed with blocks missing.
+	// environment deviation: the response sink panics while the data message of this block is written. The request
+	// must end with an error there: nothing after it, no block silently skipped.
+	SinkPanicAt   uint64 `json:"sink_panic_at,omitempty"`
 	CleanEndAt    uint64 `json:"clean_end_at,omitempty"`
 	CleanEndTier2 bool   `json:"clean_end_tier2,omitempty"`
 }
@@ -83,6 +86,9 @@ func Eval(c Case) (*core.Fail, bool) {
 	}
 	if c.CleanEndAt != 0 {
 		return evalCleanEnd(c, p, chain, final, dir)
+	}
+	if c.SinkPanicAt != 0 {
+		return evalSinkPanic(c, p, chain, final, dir)
 	}
 	cfg := sysrun.Config{Modules: p.Modules, Output: p.Output, Prod: c.Prod, Seg: c.Seg, Start: int64(c.Start), Stop: c.Stop, Final: final, Dir: dir, Source: chain, Timeout: 10 * time.Second}
 	r := sysrun.Run(cfg)
@@ -233,6 +239,42 @@ func evalCleanEnd(c Case, p *progs.Prog, chain sysrun.LinearChain, final uint64,
 	return nil, true
 }
 
+// evalSinkPanic: the response sink panics on one block. The request must return an error, and what was delivered is the
+// fault-free stream up to (excluding) that block: the block is not skipped with the stream going on.
+func evalSinkPanic(c Case, p *progs.Prog, chain sysrun.LinearChain, final uint64, dir string) (*core.Fail, bool) {
+	refDir := sysrun.Scratch("c04ref")
+	defer removeAll(refDir)
+	ref := sysrun.Run(sysrun.Config{Modules: p.Modules, Output: p.Output, Prod: c.Prod, Seg: c.Seg, Start: int64(c.Start), Stop: c.Stop, Final: final, Dir: refDir, Source: chain, Timeout: 10 * time.Second})
+	if ref.Err != nil || ref.Session == nil {
+		return nil, false
+	}
+	if c.SinkPanicAt < ref.Session.LinearHandoffBlock {
+		// blocks below the hand-off are written by the cached-output walker, on a goroutine of the scheduler's loop that has
+		// no recover: a panicking sink there takes the process down (no request-level behaviour to judge)
+		return nil, false
+	}
+	r := sysrun.Run(sysrun.Config{Modules: p.Modules, Output: p.Output, Prod: c.Prod, Seg: c.Seg, Start: int64(c.Start), Stop: c.Stop, Final: final, Dir: dir, Source: chain, Timeout: 10 * time.Second, PanicOnBlock: c.SinkPanicAt})
+	desc := fmt.Sprintf("%s, the response sink panics while block %d is written", c.String(), c.SinkPanicAt)
+	if !r.SinkPanicked {
+		return nil, false // that block is not delivered by this request
+	}
+	if r.Err != nil && (strings.Contains(r.Err.Error(), "context deadline exceeded") || strings.Contains(r.Err.Error(), "HANG")) {
+		return core.Failf("hang:sink-panicked", "%s: %v", desc, r.Err), true
+	}
+	if r.Err == nil {
+		return core.Failf("sink-failure-swallowed", "%s: the request succeeded; delivered %s, fault-free %s", desc, rows(r.Data), rows(ref.Data)), true
+	}
+	for i, d := range r.Data {
+		if i >= len(ref.Data) || d.Num != ref.Data[i].Num || d.Num >= c.SinkPanicAt {
+			return core.Failf("delivered-around-the-failed-block", "%s: delivered %s then %v; fault-free %s", desc, rows(r.Data), r.Err, rows(ref.Data)), true
+		}
+	}
+	if r.AfterError > 0 {
+		return core.Failf("delivered-after-the-error", "%s: %d messages after the request returned", desc, r.AfterError), true
+	}
+	return nil, true
+}
+
 func filterEmptyBelow(ds []sysrun.DataMsg, handoff uint64, prod bool) []sysrun.DataMsg {
 	if !prod {
 		return ds
@@ -314,6 +356,13 @@ func Run(ctx *core.Ctx) int {
 			{Prog: "maponly", Prod: true, Seg: 2, SInit: 1, MInit: 1, Start: 3, Stop: 8, Final: 6},
 			{Prog: "sparse", Prod: false, Seg: 2, SInit: 1, MInit: 1, Start: 3, Stop: 8, Final: -1},
 		} {
+			for n := b.Start; n < b.Stop; n++ {
+				v := b
+				v.SinkPanicAt = n
+				if !emit(v) {
+					return
+				}
+			}
 			for n := uint64(1); n < b.Stop; n++ {
 				for _, t2 := range []bool{false, true} {
 					v := b
